@@ -50,6 +50,8 @@ def _loop(k, pre, it):
 
 @register
 class SSI_fast(Contract):
+    term_level = True      # obligations over opaque kernels (svd / qr / inv / pinv as uninterpreted matrix terms): see runner
+
     qualname = "pyoma2.functions.ssi.SSI_fast"
     props = ("C01",)
     name = "realisation structure"
@@ -118,6 +120,8 @@ def _loop_legacy(k, pre, it):
 
 @register
 class SSI_legacy(Contract):
+    term_level = True      # obligations over opaque kernels (svd / qr / inv / pinv as uninterpreted matrix terms): see runner
+
     """legacy realisation: per order ii, Obs_ii = U[:, :ii] sqrt(diag sigma)[:ii, :ii], A = pinv(Obs_ii without its last block
     row) (Obs_ii without its first block row), C = first block row"""
     qualname = "pyoma2.functions.ssi.SSI"
